@@ -1469,12 +1469,8 @@ impl<'a> G<'a> {
                 self.kw("to");
                 self.e("3");
                 self.kw("generate");
-                if self.rng.chance(1, 3) {
-                    self.object_decl_scoped("signal");
-                    self.kw("begin");
-                }
                 self.ints.push(i.clone());
-                self.conc_stmt(d - 1, bsigs, vsigs, ent);
+                self.gen_body(d - 1, bsigs, vsigs, ent, None);
                 self.ints.retain(|x| x != &i);
                 self.kw("end generate");
                 if self.rng.chance(1, 2) {
@@ -1487,18 +1483,34 @@ impl<'a> G<'a> {
                 self.t(&l);
                 self.e(":");
                 self.kw("if");
+                let a1 = if self.rng.chance(1, 3) { Some(self.fresh("ia")) } else { None };
+                if let Some(a) = &a1 {
+                    self.t(a);
+                    self.e(":");
+                }
                 self.bool_expr(1);
                 self.kw("generate");
-                self.conc_stmt(d - 1, bsigs, vsigs, ent);
+                self.gen_body(d - 1, bsigs, vsigs, ent, a1.as_deref());
                 if self.rng.chance(1, 3) {
                     self.kw("elsif");
+                    let a2 = if self.rng.chance(1, 3) { Some(self.fresh("ia")) } else { None };
+                    if let Some(a) = &a2 {
+                        self.t(a);
+                        self.e(":");
+                    }
                     self.bool_expr(1);
                     self.kw("generate");
-                    self.conc_stmt(d - 1, bsigs, vsigs, ent);
+                    self.gen_body(d - 1, bsigs, vsigs, ent, a2.as_deref());
                 }
                 if self.rng.chance(1, 3) {
-                    self.kw("else generate");
-                    self.conc_stmt(d - 1, bsigs, vsigs, ent);
+                    self.kw("else");
+                    let a3 = if self.rng.chance(1, 3) { Some(self.fresh("ia")) } else { None };
+                    if let Some(a) = &a3 {
+                        self.t(a);
+                        self.e(":");
+                    }
+                    self.kw("generate");
+                    self.gen_body(d - 1, bsigs, vsigs, ent, a3.as_deref());
                 }
                 self.kw("end generate");
                 self.e(";");
@@ -1511,7 +1523,9 @@ impl<'a> G<'a> {
                 if self.rng.chance(1, 3) {
                     self.kw("is");
                 }
-                self.object_decl_scoped("constant");
+                if self.rng.chance(2, 3) {
+                    self.decl_part(true);
+                }
                 self.kw("begin");
                 self.conc_stmt(d - 1, bsigs, vsigs, ent);
                 self.kw("end block");
@@ -1529,12 +1543,12 @@ impl<'a> G<'a> {
                 self.int_expr(1);
                 self.kw("generate when");
                 self.e("0 =>");
-                self.conc_stmt(d - 1, bsigs, vsigs, ent);
+                self.gen_body(d - 1, bsigs, vsigs, ent, None);
                 self.kw("when");
                 let a = self.fresh("alt");
                 self.t(&a);
                 self.e(": 1 | 2 =>");
-                self.conc_stmt(d - 1, bsigs, vsigs, ent);
+                self.gen_body(d - 1, bsigs, vsigs, ent, Some(&a));
                 self.kw("when others");
                 self.e("=>");
                 self.kw("end generate");
@@ -1657,6 +1671,239 @@ impl<'a> G<'a> {
                 self.e(";");
             }
             _ => self.process(bsigs, vsigs),
+        }
+    }
+    /// one declarative item of an explicitly chosen kind (so that every kind occurs as the FIRST item of a
+    /// declarative part); `block` = block declarative part (architecture, block, generate body), else entity
+    /// declarative part (no component declaration, no configuration specification)
+    fn decl_kind(&mut self, k: usize, block: bool) {
+        match k {
+            0 => self.object_decl("constant"),
+            1 => self.object_decl("signal"),
+            2 => {
+                let t = self.fresh("gt");
+                self.kw("type");
+                self.t(&t);
+                self.kw("is");
+                self.e("( ");
+                let a = self.fresh("el");
+                self.t(&a);
+                self.e(", 'x' ) ;");
+            }
+            3 => {
+                let t = self.fresh("gst");
+                self.kw("subtype");
+                self.t(&t);
+                self.kw("is");
+                self.e("integer");
+                self.kw("range");
+                self.e("0");
+                self.kw("to");
+                self.e("7 ;");
+            }
+            4 if block => {
+                let c = self.fresh("gc");
+                self.kw("component");
+                self.t(&c);
+                if self.rng.chance(1, 2) {
+                    self.kw("is");
+                }
+                self.kw("port");
+                self.e("( p :");
+                self.kw("in");
+                self.e("bit ) ;");
+                self.kw("end component");
+                self.e(";");
+            }
+            5 => {
+                let a = self.fresh("ga");
+                self.kw("attribute");
+                self.t(&a);
+                self.e(": string ;");
+            }
+            6 => {
+                self.kw("attribute");
+                self.e("keep");
+                self.kw("of");
+                match self.rng.below(3) {
+                    0 => {
+                        self.kw("all");
+                        self.e(":");
+                        self.kw("signal");
+                    }
+                    1 => {
+                        self.t("'a'");
+                        self.e(":");
+                        self.kw("literal");
+                    }
+                    _ => {
+                        self.e("sx :");
+                        self.kw("signal");
+                    }
+                }
+                self.kw("is");
+                self.e("true ;");
+            }
+            7 => {
+                self.kw("use");
+                if self.rng.chance(1, 2) {
+                    self.e("std . textio .");
+                } else {
+                    self.e("work . pkg0 .");
+                }
+                self.kw("all");
+                self.e(";");
+            }
+            8 => {
+                let a = self.fresh("gal");
+                self.kw("alias");
+                self.t(&a);
+                self.kw("is");
+                self.e("work . pkg0 . c0 ;");
+            }
+            9 => {
+                let f = self.fresh("gf");
+                self.kw("function");
+                self.t(&f);
+                self.e("( a : integer )");
+                self.kw("return");
+                self.e("integer ;");
+            }
+            10 => {
+                let f = self.fresh("gfb");
+                self.function_body(&f);
+            }
+            11 => {
+                let f = self.fresh("gp");
+                self.kw("procedure");
+                self.t(&f);
+                self.e("(");
+                self.kw("signal");
+                self.e("s :");
+                self.kw("out");
+                self.e("bit ) ;");
+            }
+            12 | 13 => {
+                let f = self.fresh("gpf");
+                self.kw(if k == 12 { "pure" } else { "impure" });
+                self.kw("function");
+                self.t(&f);
+                self.kw("return");
+                self.e("bit ;");
+            }
+            14 => {
+                let a = self.fresh("gfl");
+                self.kw("file");
+                self.t(&a);
+                self.e(": std . textio . text ;");
+            }
+            15 => {
+                let v = self.fresh("gsv");
+                self.kw("shared variable");
+                self.t(&v);
+                self.e(": prot_t ;");
+            }
+            16 => {
+                let pn = self.fresh("gip");
+                self.kw("package");
+                self.t(&pn);
+                self.kw("is new");
+                self.e("work . gpk");
+                self.kw("generic map");
+                self.e("( t => integer ) ;");
+            }
+            17 if block => {
+                // configuration specification; the simple form may be followed by any declaration
+                self.kw("for");
+                match self.rng.below(3) {
+                    0 => self.kw("all"),
+                    1 => self.kw("others"),
+                    _ => self.e("u1 , u2"),
+                }
+                self.e(": cell");
+                self.kw("use");
+                match self.rng.below(3) {
+                    0 => {
+                        self.kw("entity");
+                        self.e("work . leaf ( rtl )");
+                        if self.rng.chance(1, 2) {
+                            self.kw("port map");
+                            self.e("( p => p )");
+                        }
+                        self.e(";");
+                    }
+                    1 => {
+                        self.kw("open");
+                        self.e(";");
+                    }
+                    _ => {
+                        self.kw("configuration");
+                        self.e("work . cfx ;");
+                    }
+                }
+                if self.rng.chance(1, 3) {
+                    self.kw("end for");
+                    self.e(";");
+                }
+            }
+            18 => {
+                let f = self.fresh("gpb");
+                self.kw("procedure");
+                self.t(&f);
+                self.kw("is begin null");
+                self.e(";");
+                self.kw("end");
+                if self.rng.chance(1, 2) {
+                    self.kw("procedure");
+                }
+                self.e(";");
+            }
+            19 => {
+                let f = self.fresh("gfi");
+                self.kw("function");
+                self.t(&f);
+                self.kw("is new");
+                self.e("gf0");
+                self.kw("generic map");
+                self.e("( t => integer ) ;");
+            }
+            _ => self.object_decl("constant"),
+        }
+    }
+    /// a declarative part whose FIRST item is of a uniformly chosen kind
+    fn decl_part(&mut self, block: bool) {
+        let k = self.rng.below(20);
+        self.decl_kind(k, block);
+        for _ in 0..self.rng.below(3) {
+            let k = self.rng.below(20);
+            self.decl_kind(k, block);
+        }
+    }
+    /// generate_statement_body ::= [ block_declarative_part begin ] { concurrent_statement } [ end [ alternative_label ] ; ]
+    fn gen_body(
+        &mut self,
+        d: usize,
+        bsigs: &[String],
+        vsigs: &[String],
+        ent: &(String, Vec<(String, usize)>, Vec<(String, usize)>),
+        alt: Option<&str>,
+    ) {
+        let with_decl = self.rng.chance(1, 2);
+        if with_decl {
+            self.decl_part(true);
+            self.kw("begin");
+        }
+        for _ in 0..self.rng.below(3) {
+            self.conc_stmt(d, bsigs, vsigs, ent);
+        }
+        if with_decl && self.rng.chance(1, 3) {
+            self.kw("end");
+            if let Some(a) = alt {
+                if self.rng.chance(1, 2) {
+                    self.t(a);
+                }
+            }
+            self.e(";");
         }
     }
     /// a declaration whose name must not leak into outer scopes (names stay registered: the
@@ -1789,6 +2036,9 @@ impl<'a> G<'a> {
         for (p, w) in &ports {
             self.register(*w, p);
         }
+        if self.rng.chance(1, 2) {
+            self.decl_part(false);
+        }
         if self.rng.chance(1, 4) {
             self.kw("begin");
             self.kw("assert");
@@ -1812,6 +2062,9 @@ impl<'a> G<'a> {
         self.t(&name);
         self.kw("is");
         self.in_arch = true;
+        if self.rng.chance(1, 3) {
+            self.decl_part(true);
+        }
         let mut bsigs = Vec::new();
         let mut vsigs = Vec::new();
         for _ in 0..2 + self.rng.below(4) {
